@@ -31,18 +31,34 @@ WRAPPERS = [
 ]
 
 
-def origin(eng, p, st, v, depth=6):
-    """name of the function argument (p0, p1, ..) a value is derived from through conversions (to_path_buf, as_ref, deref, borrow ..)"""
+RESOLVE = r"fs::canonicalize$|(^|::)canonicalize$"
+
+
+def origin(eng, p, st, v, depth=8, trail=None):
+    """name of the function argument (p0, p1, ..) a value is derived from through conversions (to_path_buf, as_ref, deref, borrow ..)
+    and symlink resolution (the Ok payload of fs::canonicalize); `trail` collects the callees passed on the way"""
     for _ in range(depth):
         cn = summaries.canon(eng, st, v)
         m = re.fullmatch(r"&?(p\d)\*?", cn.strip())
         if m:
             return m.group(1)
+        ok = re.fullmatch(r"(.+)@Ok\.0", cn.strip())
+        if ok:
+            prod = [ev for ev in p.events if ev.kind == "call" and ev.ret is not None and summaries.canon(eng, st, ev.ret) == ok.group(1)
+                    and re.search(RESOLVE, ev.callee)]
+            if not prod or not prod[0].args:
+                return cn
+            if trail is not None:
+                trail.append(prod[0].callee)
+            v = prod[0].args[0]
+            continue
         prod = [ev for ev in p.events if ev.kind == "call" and ev.ret is not None and summaries.canon(eng, st, ev.ret) == cn]
         if not prod or not prod[0].args:
             return cn
         if not re.search(r"to_path_buf$|as_ref$|[Dd]eref|borrow$|as_path$|into$|from$|clone$", prod[0].callee):
             return cn
+        if trail is not None:
+            trail.append(prod[0].callee)
         v = prod[0].args[0]
     return None
 
@@ -71,17 +87,25 @@ def add(rep, ctx, replayer=None):
             if p.status != "return" or not isinstance(p.result, EnumV):
                 return z3.BoolVal(False)
             c = called(p, pat)
-            if len(c) != 1 or not isinstance(c[0].ret, Lazy):
+            pre = called(p, RESOLVE)
+            if len(c) > 1 or len(pre) > 1 or not all(isinstance(ev.ret, Lazy) for ev in c + pre):
                 return z3.BoolVal(False)
             st = mirsym.State()
             st.mem, st.pc = p.mem, list(p.pc)
-            # the i-th path handed to the std call derives from the i-th argument (through to_path_buf / as_ref)
+            # the i-th path handed to the std call derives from the i-th argument (through to_path_buf / as_ref; a link source may
+            # have been resolved with fs::canonicalize first)
             ok = True
-            for i in range(nargs):
-                ok = ok and origin(eng, p, st, c[0].args[i]) == "p%d" % i
-            failed = z3.BitVec(mirsym.sanitize(c[0].ret.name + "#d"), 64) == 1
-            return z3.And(z3.BoolVal(bool(ok)), z3.BoolVal(p.result.variant == "Err") == failed)
-        o = oblig.check_paths(eng, ps, "FsCommand::%s: exactly one std::fs call on the given path(s); Err iff that call failed (no error is swallowed)" % name,
+            for ev in c:
+                for i in range(nargs):
+                    ok = ok and origin(eng, p, st, ev.args[i]) == "p%d" % i
+            for ev in pre:
+                ok = ok and origin(eng, p, st, ev.args[0]) == "p0"
+            fl = lambda ev: z3.BitVec(mirsym.sanitize(ev.ret.name + "#d"), 64) == 1
+            failed = z3.Or([fl(ev) for ev in pre + c]) if pre + c else z3.BoolVal(False)
+            # the operation itself is skipped only when the resolution before it failed
+            issued = z3.BoolVal(True) if c else (z3.Or([fl(ev) for ev in pre]) if pre else z3.BoolVal(False))
+            return z3.And(z3.BoolVal(bool(ok)), issued, z3.BoolVal(p.result.variant == "Err") == failed)
+        o = oblig.check_paths(eng, ps, "FsCommand::%s: exactly one std::fs operation on the given path(s); Err iff a call it made failed (no error is swallowed)" % name,
                               prop, oblig.fnames(eng), key="wrapper:%s" % name)
         if o.verdict == "violated" and replayer:
             replayer(o, name)
@@ -247,3 +271,58 @@ def reflink_protocol(rep, ctx):
     o2 = oblig.check_paths(eng, ps, o.name, prop, oblig.fnames(eng), key=o.key)
     o2.bounds = o.bounds
     rep.add(o2)
+
+
+def hardlink_source(rep, ctx, replayer=None):
+    """C02 ("every original path still exists and reads back exactly the same bytes"): link(2) / fs::hard_link does not follow a
+    symbolic link given as the source - the new name becomes a second name of the *symlink*.  The retained path of a group can be a
+    symbolic link (reports of `group --symbolic-links` list links next to their targets in one sub-group), and a relative symlink
+    hard-linked into another directory dangles.  Obligation: on every path of FsCommand::hardlink that reaches fs::hard_link, the
+    source handed to it is the Ok payload of fs::canonicalize of the `target` argument (symlinks resolved)."""
+    prog = ctx.lib
+    f = prog.method("FsCommand", "hardlink")
+    eng = oblig.engine(prog, inline=oblig.module_inliner(prog, "dedupe.rs", r"^$"), extra=dict(optsum.SUMMARIES), unroll=0)
+    args = [Lazy("p%d" % i, t) for i, (n, t) in enumerate(f.args)]
+    ps = eng.run(f, args=args)
+
+    def prop(p):
+        if p.status != "return":
+            return None
+        c = called(p, WRAPPERS[2][1])
+        if not c:
+            return None
+        st = mirsym.State()
+        st.mem, st.pc = p.mem, list(p.pc)
+        good = True
+        for ev in c:
+            trail = []
+            root = origin(eng, p, st, ev.args[0], trail=trail)
+            good = good and root == "p0" and any(re.search(RESOLVE, t) for t in trail)
+        return z3.BoolVal(bool(good))
+    o = oblig.check_paths(eng, ps, "FsCommand::hardlink: the link source is the retained path with symbolic links resolved (a hard link to a symlink dangles elsewhere)",
+                          prop, oblig.fnames(eng), key="wrapper:hardlink:source-may-be-a-symlink")
+    if o.verdict == "violated" and replayer:
+        replayer(o)
+    rep.add(o)
+
+
+def hardlink_resolves(prog):
+    """does FsCommand::hardlink hand fs::hard_link the canonicalized target on every path that reaches it? (C11 uses this to decide
+    which `ln` the script has to print: `ln -L` dereferences the source like the real run, plain `ln` / `ln -P` does not)"""
+    f = prog.method("FsCommand", "hardlink")
+    eng = oblig.engine(prog, inline=oblig.module_inliner(prog, "dedupe.rs", r"^$"), extra=dict(optsum.SUMMARIES), unroll=0)
+    args = [Lazy("p%d" % i, t) for i, (n, t) in enumerate(f.args)]
+    seen, res = 0, True
+    for p in eng.run(f, args=args):
+        if p.status != "return":
+            continue
+        st = mirsym.State()
+        st.mem, st.pc = p.mem, list(p.pc)
+        for ev in called(p, WRAPPERS[2][1]):
+            trail = []
+            origin(eng, p, st, ev.args[0], trail=trail)
+            seen += 1
+            res = res and any(re.search(RESOLVE, t) for t in trail)
+    if not seen:
+        raise Inconclusive("FsCommand::hardlink: no path reaches fs::hard_link")
+    return res
